@@ -15,23 +15,48 @@ open PcbV PcbV.SeqFile
     l                   LINE INPUT #1, a$             → l<hex> | E62
     r<n>                INPUT$(n, #1)                 → r<hex> | E62
     e f k               EOF(1), LOF(1), LOC(1)        → e0|e1|E54, f<n>, k<n>
+    T<k><a><b>          DEFSTR/DEFINT/DEFSNG/DEFDBL a-b  (k = s i f d; a, b letters)
+    iv<hex name>        INPUT #1, <variable as written, without indices>: the model derives the type from the
+                        completed name (DEFtype table)  → as is/in
+    lv<hex name>        LINE INPUT #1, <variable>  → l<hex> | E62 | E13 (not a string variable; nothing read)
+    W items may also be v<hex name>/<hex>: a variable as written + its text; quoted iff the completed name is a string
   Reply: `ok <results joined by ;, or -> <hex of the host file>`; `X` marks an op that is invalid in the state.
 -/
 
-def parseItem (s : String) : Option Item :=
+def parseItem (tab : DefTab) (s : String) : Option Item :=
   match s.toList with
+  | 'v' :: rest =>
+    match (String.ofList rest).splitOn "/" with
+    | [n, t] => do
+      let name ← ofHex n
+      let text ← ofHex t
+      pure (itemOfVar tab name text)
+    | _ => none
   | 's' :: rest => (ofHex (String.ofList rest)).map Item.str
   | 'n' :: rest => (ofHex (String.ofList rest)).map Item.num
   | _ => none
 
-def parseItems (s : String) : Option (List Item) :=
-  if s = "" then some [] else (s.splitOn ",").mapM parseItem
+def parseItems (tab : DefTab) (s : String) : Option (List Item) :=
+  if s = "" then some [] else (s.splitOn ",").mapM (parseItem tab)
+
+def letterIdx (c : Char) : Nat := upperByte c.toNat - 65
+
+def sigilOf : Char → Option Nat
+  | 's' => some 36
+  | 'i' => some 37
+  | 'f' => some 33
+  | 'd' => some 35
+  | _ => none
+
+def showEntry : R (Bytes × Bytes) → String
+  | .ok (w, c) => "w" ++ toHex w ++ "/" ++ toHex c
+  | .error e => "E" ++ toString e
 
 def showRB (tag : String) : R Bytes → String
   | .ok b => tag ++ toHex b
   | .error e => "E" ++ toString e
 
-def step (s : Fs) (op : String) : Fs × Option String :=
+def step (tab : DefTab) (s : Fs) (op : String) : Fs × Option String :=
   match op.toList, s.h with
   | ['o', 'O'], .closed => ({ s with h := .out openOut }, none)
   | ['o', 'A'], .closed => ({ s with h := .out (openAppend s.disk) }, none)
@@ -43,7 +68,7 @@ def step (s : Fs) (op : String) : Fs × Option String :=
     | none => (s, some "X")
   | ['L'], .out w => ({ s with h := .out w.writeLine }, none)
   | 'W' :: rest, .out w =>
-    match parseItems (String.ofList rest) with
+    match parseItems tab (String.ofList rest) with
     | some items => ({ s with h := .out (w.writeStmt items) }, none)
     | none => (s, some "X")
   | 'P' :: rest, .out w =>
@@ -68,6 +93,18 @@ def step (s : Fs) (op : String) : Fs × Option String :=
     ({ s with h := .inp x.2 }, some (match x.1 with
       | .ok (w, c) => "w" ++ toHex w ++ "/" ++ toHex c
       | .error e => "E" ++ toString e))
+  | 'i' :: 'v' :: rest, .inp r =>
+    match ofHex (String.ofList rest) with
+    | some name =>
+      let x := r.inputVar tab name
+      ({ s with h := .inp x.2 }, some (showEntry x.1))
+    | none => (s, some "X")
+  | 'l' :: 'v' :: rest, .inp r =>
+    match ofHex (String.ofList rest) with
+    | some name =>
+      let x := r.lineInputVar tab name
+      ({ s with h := .inp x.2 }, some (showRB "l" x.1))
+    | none => (s, some "X")
   | ['l'], .inp r =>
     let x := r.lineInput
     ({ s with h := .inp x.2 }, some (showRB "l" x.1))
@@ -87,16 +124,22 @@ def step (s : Fs) (op : String) : Fs × Option String :=
   | ['k'], .out w => (s, some ("k" ++ toString w.loc))
   | _, _ => (s, some "X")
 
-def runOps : List String → Fs → List String → Fs × List String
-  | [], s, acc => (s, acc.reverse)
-  | op :: ops, s, acc =>
-    let x := step s op
-    runOps ops x.1 (match x.2 with | some r => r :: acc | none => acc)
+def runOps : List String → DefTab → Fs → List String → Fs × List String
+  | [], _, s, acc => (s, acc.reverse)
+  | op :: ops, tab, s, acc =>
+    match op.toList with
+    | ['T', k, a, b] =>
+      match sigilOf k with
+      | some sg => runOps ops (defType tab sg (letterIdx a) (letterIdx b)) s acc
+      | none => runOps ops tab s ("X" :: acc)
+    | _ =>
+      let x := step tab s op
+      runOps ops tab x.1 (match x.2 with | some r => r :: acc | none => acc)
 
 def handle : List String → String
   | [mode, hist] =>
     if mode ≠ "soft" ∧ mode ≠ "wrap" then "bad-op" else
-    let x := runOps (hist.splitOn ";") { disk := [], h := .closed, soft := mode = "soft" } []
+    let x := runOps (hist.splitOn ";") defaultTab { disk := [], h := .closed, soft := mode = "soft" } []
     "ok " ++ (if x.2.isEmpty then "-" else ";".intercalate x.2) ++ " " ++ toHex x.1.bytes
   | _ => "bad-op"
 
